@@ -92,6 +92,42 @@ fn accessors_exec(name: &'static str, input: &[u8]) -> Out {
     class(format!("acc={c:04x}"))
 }
 
+/// The buffering body extractors read `Content-Length`, `Content-Type` and `Content-Encoding` of
+/// the peer's head before (and while) they collect the body: run each of them on the delivered
+/// head with an empty body.
+fn extractors_exec(name: &'static str, input: &[u8]) -> Out {
+    use actix_web::FromRequest as _;
+    use futures_util::FutureExt as _;
+    let lines: Vec<(&str, &[u8])> = if name == "content-type" {
+        vec![(name, input), ("content-length", b"0")]
+    } else {
+        vec![(name, input)]
+    };
+    let Some(req) = deliver("POST", &lines) else { return Out::Skip };
+    let c = with_http_request(&req, |hr| {
+        let mut c = 0u32;
+        let mut pl = actix_web::dev::Payload::None;
+        c |= matches!(actix_web::web::Bytes::from_request(hr, &mut pl).now_or_never(), Some(Ok(_))) as u32;
+        let mut pl = actix_web::dev::Payload::None;
+        c |= (matches!(String::from_request(hr, &mut pl).now_or_never(), Some(Ok(_))) as u32) << 1;
+        let mut pl = actix_web::dev::Payload::None;
+        c |= (matches!(actix_web::web::Json::<serde_json::Value>::from_request(hr, &mut pl).now_or_never(), Some(Ok(_))) as u32) << 2;
+        let mut pl = actix_web::dev::Payload::None;
+        c |= (matches!(actix_web::web::Form::<std::collections::HashMap<String, String>>::from_request(hr, &mut pl).now_or_never(), Some(Ok(_))) as u32) << 3;
+        let mut pl = actix_web::dev::Payload::None;
+        c |= (matches!(actix_multipart::Multipart::from_request(hr, &mut pl).now_or_never(), Some(Ok(_))) as u32) << 4;
+        let mut pl = actix_web::dev::Payload::None;
+        c |= (matches!(actix_web::web::Payload::from_request(hr, &mut pl).now_or_never(), Some(Ok(_))) as u32) << 5;
+        c
+    });
+    class(format!("extract={c:02x}"))
+}
+
+const LEN: &[&[u8]] = &[
+    b"0", b"1", b"5", b"65536", b"4294967296", b"9223372036854775807", b"9223372036854775808", b"18446744073709551615", b"18446744073709551616",
+    b"+", b"-", b" ", b",", b"x", b"\t", b"00000000000000000000",
+];
+
 struct Spec {
     label: &'static str,
     name: &'static str,
@@ -280,6 +316,21 @@ pub fn group() -> Group {
             max_tokens: [3, 4],
             seeds,
             double: true,
+            delivery: Delivery::Whole,
+            exec,
+        });
+    }
+    // buffering body extractors driven by the peer's length / type / coding headers
+    for (name, alpha) in [("content-length", LEN), ("content-type", MIME), ("content-encoding", QUAL)] {
+        let exec: ExecFn = Arc::new(move |i: &[u8], _m: Mode| extractors_exec(name, i));
+        targets.push(Target {
+            name: format!("extractors:{name}"),
+            prefix: vec![],
+            suffix: vec![],
+            alphabet: toks(alpha),
+            max_tokens: [3, 4],
+            seeds: vec![],
+            double: false,
             delivery: Delivery::Whole,
             exec,
         });
